@@ -25,6 +25,7 @@
 extern void* VF_OBJECTS[];
 extern int VF_KINDS[];
 extern int VF_NOBJ;
+void vf_init(void) __attribute__((weak)); /* optional: fill VF_OBJECTS at run time (objects reached through alias pointers) */
 
 static size_t esize(int code) { return code == 0 ? 4 : code == 1 ? 8 : code == 2 ? 8 : 16; }
 static size_t rsize(int code) { return (code == 0 || code == 2) ? 4 : 8; }
@@ -135,6 +136,7 @@ static void rd(FILE* f, void* p, size_t n)
 int main(int argc, char** argv)
 {
   if (argc < 3) { fprintf(stderr, "usage: driver script out\n"); return 3; }
+  if (vf_init) vf_init();
   FILE* in = fopen(argv[1], "rb");
   FILE* out = fopen(argv[2], "wb");
   if (!in || !out) { perror("open"); return 3; }
